@@ -37,6 +37,9 @@ import (
 //	       chain / attr (<template :require="mk">) / spaced (with line breaks) / bare (no wrapper): a
 //	       v-if="c0" / v-else-if="c1" / v-else chain of <p data-m=Ma|Mb|Me>; pair: v-if="c0" / v-else;
 //	       single: one <div data-m=M> holding the pair
+//	ctx  : a parsing context other than the ordinary flow, holding leaf kids (plain / chain members):
+//	       Variant noscript (<noscript data-m=M>tM kids</noscript>), ul (kids are <li>), select (kids
+//	       are <option>), table (<table data-m=M><tbody> kids as <tr data-m=K><td>tK</td></tr>)
 //	text : a non-whitespace text sibling " wM " (Interp: " w{{ tw }}M " with tw="Z"), never placed
 //	       between the members of a chain; it is part of the own text of the enclosing marker
 //	       element (of the virtual root at top level)
@@ -86,6 +89,12 @@ type Case struct {
 	// (fields read by JSON tag: it1.ca), "embed" / "embedptr" a struct that embeds condStruct by
 	// value / by pointer (promoted fields read by Go name: it1.Ca).
 	Items string `json:"items,omitempty"`
+	// Layout places the nodes relative to a layout (layouts/lay.vuego, chosen by the page's
+	// front-matter): "slot" - the nodes are the content of <template #side> that the page hands to
+	// the layout's <slot name="side">; "file" - the nodes are written into the layout file itself.
+	// The layout is <div data-m="LS">tLS [slot | nodes]</div><main data-m="LC" v-html="content">
+	// and the page body is <p data-m="pb">tpb</p>.
+	Layout string `json:"layout,omitempty"`
 	// After is the after-failure dimension: "" none, or where the failing variant of this page is
 	// rendered before the real call: "fresh" (another fresh engine), "engine" (the same engine),
 	// "template" (RenderString on the Template object of the real call).
@@ -377,6 +386,7 @@ type stats struct {
 	laterDeco        bool          // an unchosen member after the chosen one carries v-pre / v-once / v-for
 	chosenN          map[*Node]int // how often each member was the chosen one
 	onceRepeat       []*Node       // v-once members chosen more than once: C16's subject, not asserted here
+	ctxs             int           // ctx nodes evaluated
 	guard            bool          // a condition of the form !nok(x) && y / !nok(x) || y / !x && y
 	forOnce          bool          // a chosen member carrying v-for and v-once
 	comps            int           // comp nodes evaluated
@@ -508,6 +518,20 @@ func (m *model) eval(nodes []Node, sc scope, depth int, inLoop, inChain bool) []
 			}
 			out = append(out, Out{Text: tok}) // ID "": folded into the parent's own text
 			// a following v-if starts a new chain, but the text is what follows the previous one
+			prevChainEnd = false
+		case "ctx":
+			m.st.ctxs++
+			kids := m.eval(n.Kids, sc, depth+1, inLoop, inChain)
+			text := ""
+			if n.Variant == "noscript" {
+				text = "t" + n.M
+			}
+			if n.Variant == "table" {
+				for k := range kids {
+					kids[k].Text = "" // the row's text sits in an unmarked <td>
+				}
+			}
+			out = append(out, Out{ID: n.M, Text: text, Kids: kids})
 			prevChainEnd = false
 		case "comp":
 			m.st.comps++
@@ -777,6 +801,12 @@ func expect(c *Case) ([]Out, *stats) {
 			m.st.onceRepeat = append(m.st.onceRepeat, n)
 		}
 	}
+	if c.Layout != "" {
+		// what the layout's content element holds is not asserted here (layouts are C07's subject;
+		// on the current tree the content of a named slot template is rendered there as well)
+		out = []Out{{ID: "LS", Text: "tLS", Kids: out}}
+		m.st.ignore["LC"] = true
+	}
 	out, top := foldText(out)
 	m.st.rootText = strings.Join(top, " ")
 	return out, m.st
@@ -826,6 +856,27 @@ func writeNodes(sb *strings.Builder, nodes []Node, form string) {
 			} else {
 				sb.WriteString(" w" + n.M + " ")
 			}
+		case n.Kind == "ctx":
+			open, tag, close := `<noscript data-m="`+n.M+`">t`+n.M, "p", `</noscript>`
+			switch n.Variant {
+			case "ul":
+				open, tag, close = `<ul data-m="`+n.M+`">`, "li", `</ul>`
+			case "select":
+				open, tag, close = `<select data-m="`+n.M+`">`, "option", `</select>`
+			case "table":
+				open, tag, close = `<table data-m="`+n.M+`"><tbody>`, "tr", `</tbody></table>`
+			}
+			sb.WriteString(open)
+			for k := range n.Kids {
+				kid := &n.Kids[k]
+				sb.WriteString(sepText(kid.Sep))
+				inner := "t" + kid.M
+				if tag == "tr" {
+					inner = "<td>" + inner + "</td>"
+				}
+				fmt.Fprintf(sb, `<%s data-m="%s"%s>%s</%s>`, tag, kid.M, kid.directive(form), inner, tag)
+			}
+			sb.WriteString(close)
 		case n.Kind == "comp":
 			props := fmt.Sprintf(` mk="%s" :c0="%s"`, n.M, condText(n.Cond, form))
 			if n.Cond2 != "" {
@@ -934,8 +985,32 @@ func hasInclude(nodes []Node) bool {
 
 func (c *Case) source() string {
 	var sb strings.Builder
-	writeNodes(&sb, c.Nodes, c.style())
+	switch c.Layout {
+	case "slot":
+		sb.WriteString("---\nlayout: lay\n---\n<template #side>")
+		writeNodes(&sb, c.Nodes, c.style())
+		sb.WriteString(`</template><p data-m="pb">tpb</p>`)
+	case "file":
+		sb.WriteString("---\nlayout: lay\n---\n" + `<p data-m="pb">tpb</p>`)
+	default:
+		writeNodes(&sb, c.Nodes, c.style())
+	}
 	return sb.String()
+}
+
+// layoutFiles returns the layout file of a case that has one.
+func (c *Case) layoutFiles() map[string]string {
+	switch c.Layout {
+	case "slot":
+		return map[string]string{"layouts/lay.vuego": `<div data-m="LS">tLS<slot name="side"><p data-m="LF">tLF</p></slot></div><main data-m="LC" v-html="content"></main>`}
+	case "file":
+		var sb strings.Builder
+		sb.WriteString(`<div data-m="LS">tLS`)
+		writeNodes(&sb, c.Nodes, c.style())
+		sb.WriteString(`</div><main data-m="LC" v-html="content"></main>`)
+		return map[string]string{"layouts/lay.vuego": sb.String()}
+	}
+	return nil
 }
 
 func maxFor(nodes []Node) int {
